@@ -340,7 +340,7 @@ func cmdRun(args []string) int {
 			if !knownPrinted[v.KnownID] {
 				knownPrinted[v.KnownID] = true
 				k := openSet[v.KnownID]
-				lines = append(lines, fmt.Sprintf("KNOWN-FINDING: property=%s %s %s (%s; replay=%s)", *prop, k.ID, k.What, k.Site, v.File))
+				lines = append(lines, fmt.Sprintf("KNOWN-FINDING: property=%s %s %s (%s; replay=%s)", k.Property, k.ID, k.What, k.Site, v.File))
 			}
 		}
 		for _, v := range r.Confirmed {
